@@ -15,10 +15,10 @@ Matches(o, obs) ==
 Judge(c) ==
   LET outs == Outs(c.e, MergeN(<<c.ctx, c.run>>))
       \* optional facts established by the harness on the concrete database rows (C38): all must hold
-      fok == ("flags" \notin DOMAIN c) \/ (\A f \in DOMAIN c.flags : c.flags[f] = 1)
+      fok == IF "flags" \in DOMAIN c THEN \A f \in DOMAIN c.flags : c.flags[f] = 1 ELSE TRUE
       ok == fok /\ \E o \in outs : Matches(o, c.obs)
   IN /\ PrintT("VERDICT " \o ToJson(<<c.id, IF ok THEN 1 ELSE 0, Cardinality(outs)>>))
-     /\ (ok \/ PrintT("EXPECT " \o ToJson(<<c.id, SetToSeq(outs)>>)))
+     /\ IF ok THEN TRUE ELSE PrintT("EXPECT " \o ToJson(<<c.id, SetToSeq(outs)>>))
 
 VARIABLE i
 Init == i = 1
